@@ -217,6 +217,8 @@ class Sim:
             self._mutate(i, hi, op, fb, inject=st.get("inject"))
         elif op in O.FORKS or op == "reload":
             self._fork(i, hi, op)
+        elif op in O.DERIVES:
+            self._derive(i, hi, op)
         elif op == "wfail":
             self._wfail(i, hi, st)
         else:
@@ -382,6 +384,41 @@ class Sim:
         self.stats["fork:" + op] += 1
         if memo_mask(h) != "0000-":
             self.stats["fork_with_memo"] += 1
+        self._log(i, hi, op, "-> h%d" % (len(self.world) - 1))
+        self._check_others(i, hi, op, others)
+
+    def _derive(self, i, hi, op):
+        """A crystal computed from handle `hi` joins the world as a handle of
+        its own; what happens to it later must never reach back into `hi`
+        (aliasing through arrays shared with the parent's memos)."""
+        if len(self.world) >= MAX_HANDLES:
+            self.stats["fork:skipped_full"] += 1
+            self._log(i, hi, op, "skipped")
+            return
+        h = self.world[hi]
+        S = state_digest(h)
+        others = self._others(hi)
+        try:
+            new = O.DERIVES[op](h)
+        except Exception as e:  # noqa: BLE001 - e.g. no molecules; not judged here
+            self.stats["derive_raised:%s:%s" % (op, type(e).__name__)] += 1
+            self.last_raise[hi] = op + "!" + type(e).__name__
+            self._log(i, hi, op, "raised:" + type(e).__name__)
+            if state_digest(h) != S:
+                raise Violation("QUERY_MUTATED_STATE", i, op, hi, {"what": "failed derivation changed state"})
+            self._check_others(i, hi, op, others)
+            return
+        if not isinstance(new, Crystal):
+            self._log(i, hi, op, "not-a-crystal")
+            return
+        if state_digest(h) != S:
+            raise Violation("QUERY_MUTATED_STATE", i, op, hi, {"what": "derivation changed its source"})
+        self.world.append(new)
+        self.repeat.append({})
+        self.last_mut.append(None)
+        self.last_raise.append(None)
+        self.armed.append(False)
+        self.stats["fork:" + op] += 1
         self._log(i, hi, op, "-> h%d" % (len(self.world) - 1))
         self._check_others(i, hi, op, others)
 
